@@ -1,5 +1,5 @@
 #!/usr/bin/env python3
-"""C20 -- geometry helpers and the spatial index (see DESIGN.md 3.C20)."""
+"""C20 -- geometry helpers and the spatial index (see DESIGN.md section 4, C20)."""
 import os
 import sys
 from fractions import Fraction as Fr
@@ -37,7 +37,7 @@ MANIFEST_ENTRY = {
     "note": "Trusted: Coq kernel, translator (py2coq), extraction + OCaml driver, harness; Plane's loops/dict/set are modelled "
             "by hand (Model/Plane.v) and only tied by correspondence; float rounding is outside the theorems (exact Q / "
             "generic ring); objects are assumed inserted once and boxes well-formed (x0<=x1,y0<=y1).",
-    "design_ref": "DESIGN.md 3.C20",
+    "design_ref": "DESIGN.md section 4, C20",
 }
 ASSUMPTIONS = [
     "objects are inserted at most once (fresh identity) and only live objects are removed; boxes satisfy x0<=x1, y0<=y1; "
